@@ -269,6 +269,89 @@ class InlineTemp(ast.NodeTransformer):
         return fn
 
 
+class ExtractMethod(ast.NodeTransformer):
+    """extract-method refactoring, mechanically: in every method with enough statements, a contiguous run of simple
+    top-level statements moves into a new private method `_extracted<k>_(self, <locals it reads>)` that returns the
+    locals it (re)binds and that are used afterwards; the original site becomes a call."""
+
+    def __init__(self):
+        self.k = 0
+
+    @staticmethod
+    def _names(nodes, ctx):
+        return {n.id for r in nodes for n in ast.walk(r) if isinstance(n, ast.Name) and isinstance(n.ctx, ctx)}
+
+    def visit_ClassDef(self, c):
+        new_methods = []
+        for fn in [b for b in c.body if isinstance(b, ast.FunctionDef)]:
+            if not fn.args.args or fn.args.args[0].arg != "self" or fn.decorator_list or fn.name.startswith("__"):
+                continue
+            body = fn.body
+            start = 1 if body and isinstance(body[0], ast.Expr) and isinstance(body[0].value, ast.Constant) else 0
+            simple = lambda st: isinstance(st, (ast.Assign, ast.AugAssign, ast.Expr)) and not any(
+                isinstance(n, (ast.Yield, ast.YieldFrom, ast.Await, ast.Lambda, ast.NamedExpr, ast.Starred)) or
+                (isinstance(n, ast.Call) and isinstance(n.func, ast.Name) and n.func.id in ("super", "locals"))
+                for n in ast.walk(st))
+            # the longest run (max 3) of simple statements that is not the whole body
+            best = None
+            i = start
+            while i < len(body):
+                j = i
+                while j < len(body) and j - i < 3 and simple(body[j]):
+                    j += 1
+                if j - i >= 2 and (best is None or j - i > best[1] - best[0]) and not (i == start and j == len(body)):
+                    best = (i, j)
+                i = max(j, i + 1)
+            if best is None:
+                continue
+            i, j = best
+            block, before, after = body[i:j], body[start:i], body[j:]
+            params = {a.arg for a in fn.args.args + fn.args.kwonlyargs}
+            bound_before = params | self._names(before, ast.Store)
+            for st in before:
+                for n in ast.walk(st):
+                    if isinstance(n, (ast.For, ast.comprehension)):
+                        bound_before |= self._names([n.target], ast.Store)
+            reads = self._names(block, ast.Load)
+            writes = self._names(block, ast.Store)
+            if any(isinstance(n, ast.AugAssign) and isinstance(n.target, ast.Name) for st in block for n in ast.walk(st)):
+                continue
+            # a local read before it is written inside the block must come in as a parameter
+            ins = sorted((reads & bound_before) - {"self"})
+            first_write_before_read = True
+            seen_w = set()
+            for st in block:
+                r_ = self._names([st.value] if hasattr(st, "value") else [st], ast.Load)
+                if (r_ & writes) - seen_w - set(ins):
+                    first_write_before_read = False
+                seen_w |= self._names([st], ast.Store)
+            if not first_write_before_read:
+                continue
+            outs = sorted(writes & (self._names(after, ast.Load) | set()))
+            if any(isinstance(n, (ast.Return,)) for st in after for n in ast.walk(st) if isinstance(n, ast.Return) and n.value is not None and False):
+                continue
+            self.k += 1
+            name = f"_extracted_{c.name}_{self.k}_"
+            ret = ast.Return(value=ast.Tuple(elts=[ast.Name(id=o, ctx=ast.Load()) for o in outs], ctx=ast.Load())) if len(outs) > 1 else \
+                (ast.Return(value=ast.Name(id=outs[0], ctx=ast.Load())) if outs else None)
+            helper = ast.FunctionDef(name=name, args=ast.arguments(posonlyargs=[], args=[ast.arg(arg="self")] + [ast.arg(arg=a) for a in ins],
+                                                                 kwonlyargs=[], kw_defaults=[], defaults=[]),
+                                     body=list(block) + ([ret] if ret else []), decorator_list=[], lineno=block[0].lineno, col_offset=fn.col_offset)
+            call = ast.Call(func=ast.Attribute(value=ast.Name(id="self", ctx=ast.Load()), attr=name, ctx=ast.Load()),
+                            args=[ast.Name(id=a, ctx=ast.Load()) for a in ins], keywords=[])
+            if len(outs) > 1:
+                site = ast.Assign(targets=[ast.Tuple(elts=[ast.Name(id=o, ctx=ast.Store()) for o in outs], ctx=ast.Store())], value=call)
+            elif outs:
+                site = ast.Assign(targets=[ast.Name(id=outs[0], ctx=ast.Store())], value=call)
+            else:
+                site = ast.Expr(value=call)
+            site = ast.copy_location(site, block[0])
+            fn.body = body[:i] + [site] + after
+            new_methods.append(helper)
+        c.body.extend(new_methods)
+        return c
+
+
 SIGS: dict[str, list[str] | None] = {}
 
 
@@ -304,7 +387,7 @@ class KeywordArgs(ast.NodeTransformer):
         return n
 
 
-TRANSFORMS = {"T10": HoistArg, "T11": InlineTemp, "T8": FlipIf, "T9": KeywordArgs, "T7": AliasSelf, "T1": Rename, "T2": Commute, "T3": FlipCmp, "T4": Ident, "T5": LogLines, "T6": ReturnViaLocal}
+TRANSFORMS = {"T12": ExtractMethod, "T10": HoistArg, "T11": InlineTemp, "T8": FlipIf, "T9": KeywordArgs, "T7": AliasSelf, "T1": Rename, "T2": Commute, "T3": FlipCmp, "T4": Ident, "T5": LogLines, "T6": ReturnViaLocal}
 
 
 def overlay_for(tname, root):
